@@ -33,6 +33,15 @@ func init() {
 			"			Query:     c.rconn.URL.RawQuery,\n			Publish:   false,\n			UserAgent: c.userAgent,", "C03.skipauth"},
 		Mutant{"C03", "toauthrequest-path-from-query", "internal/defs/path_access_request.go",
 			"Path:                 r.Name,", "Path:                 r.Query,", "C03.to_auth_request"},
+		Mutant{"C03", "toauthrequest-action-inverted", "internal/defs/path_access_request.go",
+			"			if r.Publish {", "			if !r.Publish {", "C03.to_auth_request"},
+		Mutant{"C03", "toauthrequest-always-read", "internal/defs/path_access_request.go",
+			"				return conf.AuthActionPublish", "				return conf.AuthActionRead", "C03.to_auth_request"},
+		Mutant{"C03", "cdn-guard-inverted", "internal/servers/hls/session.go",
+			"	if s.isCDN {\n		accessReq.SkipAuth = true", "	if !s.isCDN {\n		accessReq.SkipAuth = true", "C03.cdn.guard"},
+		Mutant{"C03", "cdn-any-bearer", "internal/servers/hls/http_server.go",
+			`isCDN := (s.cdnSecret != "" && ctx.Request.Header.Get("Authorization") == "Bearer "+s.cdnSecret)`,
+			`isCDN := (s.cdnSecret != "" || ctx.Request.Header.Get("Authorization") == "Bearer "+s.cdnSecret)`, "C03.cdn.definition"},
 		Mutant{"C03", "findpathconf-honours-skipauth", "internal/core/path_manager.go",
 			"	user, err2 := pm.authManager.Authenticate(req.AccessRequest.ToAuthRequest())\n	if err2 != nil {",
 			"	user, err2 := pm.authManager.Authenticate(req.AccessRequest.ToAuthRequest())\n	if err2 != nil && !req.AccessRequest.SkipAuth {", "C03.handler"},
@@ -103,7 +112,7 @@ func runC03(c *Ctx) {
 	if p == nil {
 		return
 	}
-	c.Explain = "E1 on the four path-manager handlers and the three wrappers; E3 on ToAuthRequest; E2 enumeration of every defs.PathAccessRequest composite literal and SkipAuth store in the module with per-site classification (publisher / internal reader / CDN), ConfToCompare origin resolved through locals, same-package struct fields and parameters of unexported functions. linux/arm is loaded additionally because the rpicamera SkipAuth site exists only there. Rule C03.perm.same_entry (prop_r3_c03.go): two edge-filtered walks per list element of every boolean decision function that branches on a permission entry's Path - (1) from the function entry avoiding every edge on which `element.Action == request.Action` holds, (2) from each path test reached that way, staying in the element's loop iteration, to a return that is not the constant false; a hit means path and action can be granted by different entries."
+	c.Explain = "E1 on the four path-manager handlers and the three wrappers; E3 on ToAuthRequest (Action: evaluation under the assumption Publish == true / false, prop_gen_c03.go); the CDN SkipAuth store: dominated by a boolean receiver field whose every store in the package evaluates to false when the secret is empty or the bearer comparison fails; E2 enumeration of every defs.PathAccessRequest composite literal and SkipAuth store in the module with per-site classification (publisher / internal reader / CDN), ConfToCompare origin resolved through locals, same-package struct fields and parameters of unexported functions. linux/arm is loaded additionally because the rpicamera SkipAuth site exists only there. Rule C03.perm.same_entry (prop_r3_c03.go): two edge-filtered walks per list element of every boolean decision function that branches on a permission entry's Path - (1) from the function entry avoiding every edge on which `element.Action == request.Action` holds, (2) from each path test reached that way, staying in the element's loop iteration, to a return that is not the constant false; a hit means path and action can be granted by different entries."
 	c.Assume = []string{
 		"the auth manager decides correctly (C01, C02) apart from the entry binding of action and path, which is decided here",
 		"gortsplib: the path announced in ANNOUNCE equals ServerSession.Path() afterwards",
@@ -171,8 +180,7 @@ func runC03(c *Ctx) {
 	ta := c.fn(p, "internal/defs", "PathAccessRequest", "ToAuthRequest")
 	if ta != nil {
 		want := map[string]string{"Path": "$0.Name", "Query": "$0.Query", "Protocol": "$0.Proto", "Credentials": "$0.Credentials",
-			"IP": "$0.IP", "CustomVerifyFunc": "$0.CustomVerifyFunc", "EnableAskCredentials": "$0.EnableAskCredentials",
-			"Action": "(*defs.PathAccessRequest).ToAuthRequest$1()"}
+			"IP": "$0.IP", "CustomVerifyFunc": "$0.CustomVerifyFunc", "EnableAskCredentials": "$0.EnableAskCredentials"}
 		got := map[string]string{}
 		for _, st := range allFieldStores(ta) {
 			got[st.field] = desc(st.val)
@@ -180,19 +188,8 @@ func runC03(c *Ctx) {
 		for f, w := range want {
 			c.Check("C03.to_auth_request", "PathAccessRequest.ToAuthRequest: auth.Request."+f+" ← "+w, got[f] == w, p.Pos(ta.Pos()), "got "+got[f])
 		}
-		cl := c.fn(p, "internal/defs", "PathAccessRequest", "ToAuthRequest$1")
-		if cl != nil {
-			c.MustPass(p, cl, "C03.to_auth_request", `return "publish"`, func(i ssa.Instruction) bool {
-				r, ok := i.(*ssa.Return)
-				return ok && desc(r.Results[0]) == `"publish"`
-			}, T("free:r.Publish"))
-			c.MustPass(p, cl, "C03.to_auth_request", `return "read"`, func(i ssa.Instruction) bool {
-				r, ok := i.(*ssa.Return)
-				return ok && desc(r.Results[0]) == `"read"`
-			}, F("free:r.Publish"))
-			ds := sortedCopy(retDescs(cl, 0))
-			c.Check("C03.to_auth_request", "ToAuthRequest action closure returns exactly publish/read", sameStrings(ds, []string{`"publish"`, `"read"`}), p.Pos(cl.Pos()), joinS(ds))
-		}
+		// Action: publish exactly when the Publish flag is set (prop_gen_c03.go)
+		c.c03Action(p, ta)
 	}
 
 	// ---- (3) wrappers and who-may-call
@@ -482,106 +479,11 @@ func (c *Ctx) skipStoreSite(p *Prog, pk *packages.Package, file *ast.File, as *a
 		c.Check("C03.skipauth.unclassified", key+": SkipAuth store of non-constant", isFalseOrAbsent(rhs), pos, exprStr(rhs))
 		return
 	}
-	path, _ := astutil.PathEnclosingInterval(file, as.Pos(), as.End())
-	guarded := false
-	var guardField string
-	for i, n := range path {
-		ifs, ok := n.(*ast.IfStmt)
-		if !ok || i == 0 {
-			continue
-		}
-		// the store must be in the then-branch
-		if !(ifs.Body.Pos() <= as.Pos() && as.End() <= ifs.Body.End()) {
-			continue
-		}
-		if se, ok := unparen(ifs.Cond).(*ast.SelectorExpr); ok && se.Sel.Name == "isCDN" {
-			guarded = true
-			guardField = se.Sel.Name
-		}
-	}
-	c.Check("C03.cdn.guard", key+": SkipAuth store guarded by isCDN", guarded, pos, "")
-	if !guarded {
-		return
-	}
-	// every literal key / assignment of the isCDN field in this package
-	n := 0
-	for _, f := range pk.Syntax {
-		ast.Inspect(f, func(nd ast.Node) bool {
-			switch x := nd.(type) {
-			case *ast.KeyValueExpr:
-				if id, ok := x.Key.(*ast.Ident); ok && id.Name == guardField {
-					if _, isField := pk.TypesInfo.Uses[id].(*types.Var); isField || pk.TypesInfo.Uses[id] == nil {
-						n++
-						c.cdnValue(p, pk, f, x.Value, x.Pos())
-					}
-				}
-			case *ast.AssignStmt:
-				for k, lhs := range x.Lhs {
-					if se, ok := lhs.(*ast.SelectorExpr); ok && se.Sel.Name == guardField && k < len(x.Rhs) {
-						n++
-						c.cdnValue(p, pk, f, x.Rhs[k], x.Pos())
-					}
-				}
-			}
-			return true
-		})
-	}
-	c.Floor("C03.cdn.definitions", n, 1)
-}
-
-// cdnValue: a value stored into session.isCDN is `true` under `if isCDN`, or
-// the local isCDN itself; the local is defined by the accepted conjunction.
-func (c *Ctx) cdnValue(p *Prog, pk *packages.Package, file *ast.File, v ast.Expr, at token.Pos) {
-	key := siteKey(p, pk, file, at)
-	pos := p.Pos(at)
-	fd := enclosingFunc(file, at)
-	var local *ast.Ident
-	if isTrue(v) {
-		path, _ := astutil.PathEnclosingInterval(file, at, at)
-		for _, n := range path {
-			if ifs, ok := n.(*ast.IfStmt); ok && ifs.Body.Pos() <= at && at <= ifs.Body.End() {
-				if id, ok := unparen(ifs.Cond).(*ast.Ident); ok && id.Name == "isCDN" {
-					local = id
-				}
-			}
-		}
-		if local == nil {
-			c.Check("C03.cdn.definition", key+": session.isCDN = true only under `if isCDN`", false, pos, "")
-			return
-		}
-	} else if id, ok := unparen(v).(*ast.Ident); ok && id.Name == "false" {
-		c.Check("C03.cdn.definition", key+": session.isCDN = false", true, pos, "")
-		return
-	} else if id, ok := unparen(v).(*ast.Ident); ok {
-		local = id
-	} else {
-		c.Check("C03.cdn.definition", key+": session.isCDN value is the isCDN local", false, pos, exprStr(v))
-		return
-	}
-	obj := pk.TypesInfo.Uses[local]
-	// find the definition of the local
-	var def ast.Expr
-	nDefs := 0
-	ast.Inspect(fd, func(n ast.Node) bool {
-		as, ok := n.(*ast.AssignStmt)
-		if !ok {
-			return true
-		}
-		for k, lhs := range as.Lhs {
-			if id, ok := lhs.(*ast.Ident); ok && (pk.TypesInfo.Defs[id] == obj || pk.TypesInfo.Uses[id] == obj) && obj != nil && k < len(as.Rhs) {
-				def = as.Rhs[k]
-				nDefs++
-			}
-		}
-		return true
-	})
-	if def == nil || nDefs != 1 {
-		c.Check("C03.cdn.definition", key+": isCDN has exactly one definition", false, pos, "")
-		return
-	}
-	got := exprSet(flattenBin(def, token.LAND))
-	want := sortedCopy([]string{`s.cdnSecret != ""`, `ctx.Request.Header.Get("Authorization") == "Bearer " + s.cdnSecret`})
-	c.Check("C03.cdn.definition", key+": isCDN := secret configured ∧ Authorization == Bearer secret", sameStrings(got, want), p.Pos(def.Pos()), "got "+joinS(got))
+	// decided on SSA (prop_gen_c03.go): the store is dominated by an edge on which a
+	// boolean field of the receiver holds, and every value stored into that
+	// field in this package is false unless the secret is configured and the
+	// Authorization header equals "Bearer "+secret.
+	c.c03CDNGuard(p, pk.PkgPath, key, pos, as.Pos(), as.End())
 }
 
 // ---------------- ConfToCompare origin ----------------
